@@ -356,7 +356,7 @@ func ruleBLSVerify(c *Ctx) {
 					c.bad(site+".root", call.Pos(), "the verified message %s does not come from ComputeSigningRoot (no domain separation)", types.ExprString(sl.X))
 				} else {
 					// the root may have been put in a local first
-				obj := signedObject(spk.TypesInfo, resolveLocal(spk.TypesInfo, src.Args[0], singleDefs(spk.TypesInfo, sfd.Body), 3))
+					obj := signedObject(spk.TypesInfo, resolveLocal(spk.TypesInfo, src.Args[0], singleDefs(spk.TypesInfo, sfd.Body), 3))
 					facts := t.traceDomain(spk, sfd, src.Args[1], src.Pos(), 0)
 					if len(facts) == 0 {
 						c.unm(site+".domain", src.Pos(), "domain %s could not be traced to a DOMAIN_* variable", types.ExprString(src.Args[1]))
